@@ -1,5 +1,6 @@
 SPECIFICATION Spec
 CONSTANTS
   Orders = {3, 4}
+  WideOrders = {3, 4}
   SoftOrders = {3, 4}
 INVARIANT SpecOK
